@@ -4,14 +4,14 @@
 From Coq Require Import List NArith ZArith Bool.
 Import ListNotations.
 From MSP Require Import Gen.Consts Gen.Tables Model.Chm.
-From MSP Require Model.Lzss Model.Mszip.
+From MSP Require Model.Lzss Model.Mszip Model.Cab.
 Local Open Scope N_scope.
 
 Definition UNMODELLED : N := 98.
 Record khdr := mkK { k_comp : N; k_dataoff : N; k_headers : N; k_length : N; k_name : option (list N); k_extra : option (list N) }.
 
 Definition rdk (file : list N) (pos n : N) : list N := sub file pos (pos + n).
-Fixpoint index0 (l : list N) (i : N) : option N := match l with [] => None | c :: r => if c =? 0 then Some i else index0 r (i + 1) end.
+Definition index0 := Cab.index0.
 Definition has (flags bit : N) : bool := negb (N.land flags bit =? 0).
 
 (* one of the two name parts: up to maxlen bytes of a NUL-terminated string.  (error, characters appended, position afterwards) *)
@@ -24,41 +24,51 @@ Definition read_part (file : list N) (pos maxlen : N) : N * list N * N :=
             else (MSPACK_ERR_OK, firstn (N.to_nat (len buf - 1)) buf, pos + len buf + 1)     (* the last byte copied is dropped as if it were the terminator *)
   end.
 
+(* the optional header fields, each: (error, value, position afterwards) *)
+Definition rd_len (flags : N) (file : list N) (pos : N) : N * N * N :=
+  if has flags MSKWAJ_HDR_HASLENGTH then
+    let b := rdk file pos 4 in if negb (len b =? 4) then (MSPACK_ERR_READ, 0, pos) else (MSPACK_ERR_OK, le32 b 0, pos + 4)
+  else (MSPACK_ERR_OK, 0, pos).
+Definition rd_unk1 (flags : N) (file : list N) (pos : N) : N * N :=
+  if has flags MSKWAJ_HDR_HASUNKNOWN1 then
+    if negb (len (rdk file pos 2) =? 2) then (MSPACK_ERR_READ, pos) else (MSPACK_ERR_OK, pos + 2)
+  else (MSPACK_ERR_OK, pos).
+Definition rd_unk2 (flags : N) (file : list N) (pos : N) : N * N :=
+  if has flags MSKWAJ_HDR_HASUNKNOWN2 then
+    let b := rdk file pos 2 in if negb (len b =? 2) then (MSPACK_ERR_READ, pos) else (MSPACK_ERR_OK, pos + 2 + le16 b 0)
+  else (MSPACK_ERR_OK, pos).
+Definition rd_names (flags : N) (file : list N) (pos : N) : N * option (list N) * N :=
+  if has flags MSKWAJ_HDR_HASFILENAME || has flags MSKWAJ_HDR_HASFILEEXT then
+    let '(e1, n1, p1) := if has flags MSKWAJ_HDR_HASFILENAME then read_part file pos 9 else (0, [], pos) in
+    if negb (e1 =? 0) then (e1, None, p1) else
+    let '(e2, n2, p2) := if has flags MSKWAJ_HDR_HASFILEEXT then read_part file p1 4 else (0, [], p1) in
+    if negb (e2 =? 0) then (e2, None, p2) else
+    (0, Some (n1 ++ (if has flags MSKWAJ_HDR_HASFILEEXT then 46 :: n2 else [])), p2)
+  else (0, None, pos).
+Definition rd_extra (flags : N) (file : list N) (pos : N) : N * option (list N) :=
+  if has flags MSKWAJ_HDR_HASEXTRATEXT then
+    let b := rdk file pos 2 in
+    if negb (len b =? 2) then (MSPACK_ERR_READ, None) else
+    let ex := rdk file (pos + 2) (le16 b 0) in
+    if negb (len ex =? le16 b 0) then (MSPACK_ERR_READ, None) else (MSPACK_ERR_OK, Some ex)
+  else (MSPACK_ERR_OK, None).
+
 Definition kwaj_open (file : list N) : N * option khdr :=
   let b := rdk file 0 kwajh_SIZEOF in
   if negb (len b =? kwajh_SIZEOF) then (MSPACK_ERR_READ, None) else
   if negb ((le32 b kwajh_Signature1 =? 1245796171) && (le32 b kwajh_Signature2 =? 3509055624)) then (MSPACK_ERR_SIGNATURE, None) else
   let comp := le16 b kwajh_CompMethod in let dataoff := le16 b kwajh_DataOffset in let flags := le16 b kwajh_Flags in
-  let pos0 := kwajh_SIZEOF in
-  (* length *)
-  let bl := rdk file pos0 4 in
-  if has flags MSKWAJ_HDR_HASLENGTH && negb (len bl =? 4) then (MSPACK_ERR_READ, None) else
-  let length := if has flags MSKWAJ_HDR_HASLENGTH then le32 bl 0 else 0 in
-  let pos1 := if has flags MSKWAJ_HDR_HASLENGTH then pos0 + 4 else pos0 in
-  (* unknown1 *)
-  if has flags MSKWAJ_HDR_HASUNKNOWN1 && negb (len (rdk file pos1 2) =? 2) then (MSPACK_ERR_READ, None) else
-  let pos2 := if has flags MSKWAJ_HDR_HASUNKNOWN1 then pos1 + 2 else pos1 in
-  (* unknown2 *)
-  let bu := rdk file pos2 2 in
-  if has flags MSKWAJ_HDR_HASUNKNOWN2 && negb (len bu =? 2) then (MSPACK_ERR_READ, None) else
-  let pos3 := if has flags MSKWAJ_HDR_HASUNKNOWN2 then pos2 + 2 + le16 bu 0 else pos2 in
-  (* file name and extension *)
-  let '(en, name, pos4) :=
-    if has flags MSKWAJ_HDR_HASFILENAME || has flags MSKWAJ_HDR_HASFILEEXT then
-      let '(e1, n1, p1) := if has flags MSKWAJ_HDR_HASFILENAME then read_part file pos3 9 else (0, [], pos3) in
-      if negb (e1 =? 0) then (e1, None, p1) else
-      let '(e2, n2, p2) := if has flags MSKWAJ_HDR_HASFILEEXT then read_part file p1 4 else (0, [], p1) in
-      if negb (e2 =? 0) then (e2, None, p2) else
-      (0, Some (n1 ++ (if has flags MSKWAJ_HDR_HASFILEEXT then 46 :: n2 else [])), p2)
-    else (0, None, pos3) in
-  if negb (en =? 0) then (en, None) else
-  (* extra text *)
-  let be := rdk file pos4 2 in
-  if has flags MSKWAJ_HDR_HASEXTRATEXT && negb (len be =? 2) then (MSPACK_ERR_READ, None) else
-  let elen := le16 be 0 in
-  let ex := rdk file (pos4 + 2) elen in
-  if has flags MSKWAJ_HDR_HASEXTRATEXT && negb (len ex =? elen) then (MSPACK_ERR_READ, None) else
-  (MSPACK_ERR_OK, Some (mkK comp dataoff flags length name (if has flags MSKWAJ_HDR_HASEXTRATEXT then Some ex else None))).
+  let '(e1, length, pos1) := rd_len flags file kwajh_SIZEOF in
+  if negb (e1 =? 0) then (e1, None) else
+  let '(e2, pos2) := rd_unk1 flags file pos1 in
+  if negb (e2 =? 0) then (e2, None) else
+  let '(e3, pos3) := rd_unk2 flags file pos2 in
+  if negb (e3 =? 0) then (e3, None) else
+  let '(e4, name, pos4) := rd_names flags file pos3 in
+  if negb (e4 =? 0) then (e4, None) else
+  let '(e5, extra) := rd_extra flags file pos4 in
+  if negb (e5 =? 0) then (e5, None) else
+  (MSPACK_ERR_OK, Some (mkK comp dataoff flags length name extra)).
 
 Definition kwaj_extract (file : list N) (h : khdr) : N * list N :=
   let data := sub file (k_dataoff h) (len file) in
